@@ -1019,7 +1019,10 @@ def impl_collectors(c):
                 rec.digests.clear()
                 col = sk.sketch._hash(obj(x), r)
                 table.append([x, r, struct.unpack(">Q", rec.digests[-1][:8])[0] if rec.digests else col])
-    return dict(traces=traces, table=table, bufsize=qe._tdigest._buffer_size)
+    # (round-8 seed C20-14) what the sketch behind the collector answers at the end, for every value that was sent to it
+    seen = sorted({e[2] for e in c["events"] if e[1] == 1 and e[2] is not None})
+    est = [[x, sk.sketch.estimate(obj(x))] for x in seen]
+    return dict(traces=traces, table=table, bufsize=qe._tdigest._buffer_size, est=est)
 
 
 def oracle_collectors(c, o):
@@ -1035,6 +1038,14 @@ def oracle_collectors(c, o):
             out.append(dict(clause="collector: sink (no output), handled at the event time in time order", target=i))
         if tr and tr[-1]["view"][1] != len(tr):
             out.append(dict(clause="collector: events_processed counts every event", target=i))
+    true1 = Counter()
+    for t, tgt, v, w in c["events"]:
+        if tgt == 1 and v is not None:
+            true1[v] += (w if c["weighted"] else 1)
+    for x, e in o.get("est", []):
+        if e < true1[x]:
+            out.append(dict(clause="sketch collector: Count-Min never underestimates what was routed through the collector",
+                            item=x, estimate=e, true=true1[x]))
     tr = o["traces"][0]
     if tr:
         true = Counter()
